@@ -236,8 +236,15 @@ def eintr_sets(npieces, ncuts, tier):
 def _worker(job, chk):
     idx, tier = job
     scn = scenarios()[idx]
-    stream, res, outcomes = baseline(scn)
     name, pre, op, kw = scn
+    try:
+        stream, res, outcomes = baseline(scn)
+    except Exception as e:  # noqa - the reference run delivers the reply undivided; failing on it is a verdict
+        chk.add()
+        chk.violation(f"undivided-reply-not-parsed|{op.name}|{name}",
+                      f"{op.label}: with the whole reply delivered by one recv() the call raised {type(e).__name__}: {e} "
+                      f"(the reference server had answered every command)", {"scenario": name, "cuts": [], "eintr": []})
+        return
     # absolute expectation from the server's own outcomes
     try:
         exp = ops.expected(op, outcomes, True, None) if op.name != "raw_command" else None
@@ -299,7 +306,10 @@ def run(chk):
 
 def replay(detail):
     scn = next(s for s in scenarios() if s[0] == detail["scenario"])
-    stream, res, outcomes = baseline(scn)
+    try:
+        stream, res, outcomes = baseline(scn)
+    except Exception as e:  # noqa
+        return [f"{scn[2].label}: the undivided reply is not parsed: {type(e).__name__}: {e}"]
     base, _ = run_seg(scn, stream, (), ())
     got, _ = run_seg(scn, stream, tuple(detail["cuts"]), tuple(detail["eintr"]))
     print("    stream:", stream[:200])
